@@ -351,7 +351,14 @@ func snapshotAll(r *engine.Run) {
 	})
 	switch {
 	case do != nil && steps == 0:
-		r.OK(rule, fn(f)+"|traversal", r.P.Pos(do.Pos()), "ring.Do from the cursor visits all slots")
+		fresh := true
+		for _, ret := range engine.Returns(f) {
+			if ret.Block().Comment != "recover" && !engine.InstrDominates(do, ret) {
+				fresh = false
+			}
+		}
+		r.Check(fresh, rule, fn(f)+"|traversal", r.P.Pos(do.Pos()), "ring.Do from the cursor visits all slots, on every path to every return",
+			"GetLogs can return without traversing the ring (a cached result): whatever validates the cache is not the ring's content, so entries written since are missing from the answer")
 	case steps > 0:
 		// counted loop: some loop condition compares a counter with Len() or a constant
 		counted := false
